@@ -767,7 +767,7 @@ func wrapAdd(c *Case, mgr *hotline.MemClientMgr, live map[int]*wrapUser) *wrapUs
 	go func() { mgr.Add(cc); close(done) }()
 	select {
 	case <-done:
-	case <-time.After(20 * time.Second):
+	case <-time.After(longWait):
 		c.Violation("id-allocation-hangs", "MemClientMgr.Add did not return although a user id is free")
 		return nil
 	}
@@ -1015,10 +1015,10 @@ func runTargeted(c *Case) {
 	if !ok {
 		return
 	}
-	gone := waitFor(5*time.Second, func() bool { return victim.nc.IsClosed() })
+	gone := waitFor(longWait, func() bool { return victim.nc.IsClosed() })
 	syncOutbox(ts)
 	if !gone {
-		c.Violation("disconnect-not-performed", "the addressed user's connection was not closed within 5 s")
+		c.Violation("disconnect-not-performed", "the addressed user's connection was not closed in time")
 	}
 	for _, cl := range h.clients {
 		if cl != victim && cl.live && (cl.nc.IsClosed() || ts.Srv.ClientMgr.Get(cl.cc.ID) != cl.cc) {
@@ -1032,18 +1032,335 @@ func runTargeted(c *Case) {
 	c.Dist(fmt.Sprintf("targeted/keepOld=%v", keepOld))
 }
 
+// ---------------------------------------------------------------- presence over real connections
+
+type wireUser struct {
+	wc      *WireClient
+	id      int
+	live    bool
+	agreed  bool
+	fetched bool
+	want    int // presence notifications (301 / 302) this connection must have received so far
+	nreq    uint32
+}
+
+func (u *wireUser) presenceInbox() (inbox []hotline.Transaction, notes int, err error) {
+	_, trans, rest, e := u.wc.Received()
+	if e != nil || len(rest) != 0 {
+		return nil, 0, fmt.Errorf("stream not framed: %v", e)
+	}
+	for i := range trans {
+		t := trans[i]
+		if t.IsReply == 0 && (tranType(&t) == 301 || tranType(&t) == 302) {
+			notes++
+			inbox = append(inbox, t)
+		} else if isUserList(&t) {
+			inbox = append(inbox, t)
+		}
+	}
+	return inbox, notes, nil
+}
+
+// runPresenceWire drives both login flows, Agreed, set-client-user-info, fetch and disconnect through the real
+// handleNewConnection / connection loop / processOutbox; every step waits until the notifications it must cause have
+// arrived (so the history stays sequential), then rosters are folded from what each connection really received.
+func runPresenceWire(c *Case) {
+	r := c.R
+	ts, err := newTS(TSOpt{Accounts: c13Accounts()})
+	if err != nil {
+		panic(err)
+	}
+	defer ts.Close()
+	var users []*wireUser
+	var evs []string
+	live := func() []*wireUser {
+		var l []*wireUser
+		for _, u := range users {
+			if u.live {
+				l = append(l, u)
+			}
+		}
+		return l
+	}
+	settle := func(what string) bool {
+		ok := waitFor(longWait, func() bool {
+			for _, u := range live() {
+				_, n, err := u.presenceInbox()
+				if err != nil || n < u.want {
+					return false
+				}
+			}
+			return true
+		})
+		if !ok {
+			for _, u := range live() {
+				_, n, err := u.presenceInbox()
+				if err != nil {
+					c.Violation("interleaved-transactions", "the stream written to a client is not a sequence of whole transactions")
+					return false
+				}
+				if n < u.want {
+					c.Note("history", clip(strings.Join(evs, " ")))
+					c.Violation("notification-missing", fmt.Sprintf("after %s user %d has received %d presence notifications, %d are due (waited two minutes)", what, u.id, n, u.want))
+					return false
+				}
+			}
+		}
+		return true
+	}
+	barrier := func(u *wireUser) {
+		u.nreq++
+		id := 100 + u.nreq
+		u.wc.Conn.Feed(encTran(mkTran(hotline.TranKeepAlive, id)))
+		u.wc.ReplyTo(id, longWait)
+	}
+	login := func() bool {
+		a := r.Intn(len(c13Accts))
+		named := r.Chance(45)
+		icon := be16(r.Intn(3000))
+		var extra []hotline.Field
+		iconPresent := r.Chance(80)
+		if iconPresent {
+			extra = append(extra, fld(hotline.FieldUserIconID, icon))
+		} else {
+			icon = []byte{0, 0}
+		}
+		name := textBytes(r, r.Pick(1, 5, 13, 20))
+		if named {
+			extra = append(extra, fld(hotline.FieldUserName, name))
+		}
+		wc, err := loginWire(ts, fmt.Sprintf("10.6.0.%d:4000", len(users)+1), c13Accts[a].login, "", extra...)
+		if err != nil {
+			c.Note("login_error", err.Error())
+			c.Disagree("wire-login", "a valid login over an in-memory connection did not succeed")
+			return false
+		}
+		u := &wireUser{wc: wc, live: true}
+		var cc *hotline.ClientConn
+		for _, x := range ts.Srv.ClientMgr.List() {
+			if x.Connection == wc.Conn {
+				cc = x
+			}
+		}
+		if cc == nil {
+			c.Violation("login-not-registered", "a successful login is not in the client table")
+			return false
+		}
+		u.id = int(binary.BigEndian.Uint16(cc.ID[:]))
+		acct := cc.Account
+		if named {
+			evs = append(evs, fmt.Sprintf("LN %s %s %s %s %s", hx([]byte(acct.Login)), hx([]byte(acct.Name)), hx(acct.Access[:]), hx(name), hx(icon)))
+			u.agreed = true
+			for _, o := range live() {
+				o.want++
+			}
+		} else {
+			evs = append(evs, fmt.Sprintf("C %s %s %s %s", hx([]byte(acct.Login)), hx([]byte(acct.Name)), hx(acct.Access[:]), hx(icon)))
+		}
+		users = append(users, u)
+		return settle("a login")
+	}
+	req := uint32(1000)
+	n := 2 + r.Intn(3)
+	for i := 0; i < n; i++ {
+		if !login() {
+			return
+		}
+	}
+	steps := 10 + r.Intn(12)
+	for s := 0; s < steps && !c.failed; s++ {
+		lv := live()
+		if len(lv) == 0 {
+			break
+		}
+		u := lv[r.Intn(len(lv))]
+		req++
+		op := r.Intn(100)
+		switch {
+		case op < 12 && len(users) < 7:
+			if !login() {
+				return
+			}
+		case op < 40:
+			var h *wireUser
+			for _, x := range lv {
+				if !x.agreed {
+					h = x
+				}
+			}
+			if h == nil {
+				continue
+			}
+			name := textBytes(r, r.Pick(0, 1, 6, 14))
+			icon := be16(r.Intn(3000))
+			opts := r.Intn(8)
+			auto := textBytes(r, 4)
+			fields := []hotline.Field{fld(hotline.FieldUserName, name), fld(hotline.FieldUserIconID, icon), fld(hotline.FieldOptions, be16(opts))}
+			if opts&4 != 0 {
+				fields = append(fields, fld(hotline.FieldAutomaticResponse, auto))
+			}
+			h.wc.Conn.Feed(encTran(mkTran(hotline.TranAgreed, req, fields...)))
+			if _, ok := h.wc.ReplyTo(req, longWait); !ok {
+				c.Violation("agreed-no-reply", "Agreed got no reply in time")
+				return
+			}
+			h.agreed = true
+			evs = append(evs, fmt.Sprintf("A %d %d %s %s %d %s", h.id, req, hx(name), hx(icon), opts, optTok(auto, opts&4 != 0)))
+			for _, o := range lv {
+				if o != h {
+					o.want++
+				}
+			}
+			if !settle("an Agreed") {
+				return
+			}
+		case op < 55:
+			if !u.agreed {
+				continue
+			}
+			u.wc.Conn.Feed(encTran(mkTran(hotline.TranGetUserNameList, req)))
+			if _, ok := u.wc.ReplyTo(req, longWait); !ok {
+				c.Violation("user-list-failed", "a user-list request got no reply in time")
+				return
+			}
+			u.fetched = true
+			evs = append(evs, fmt.Sprintf("F %d %d", u.id, req))
+		case op < 80:
+			if !u.agreed {
+				continue
+			}
+			name := textBytes(r, r.Pick(0, 3, 9, 30))
+			icon := be16(r.Intn(3000))
+			if r.Chance(25) {
+				icon = append([]byte{0, 0}, icon...)
+			}
+			fields := []hotline.Field{fld(hotline.FieldUserName, name), fld(hotline.FieldUserIconID, icon)}
+			optsTok := "none"
+			if r.Chance(60) {
+				o := r.Intn(4)
+				fields = append(fields, fld(hotline.FieldOptions, be16(o)))
+				optsTok = fmt.Sprint(o)
+			}
+			u.wc.Conn.Feed(encTran(mkTran(hotline.TranSetClientUserInfo, req, fields...)))
+			barrier(u)
+			evs = append(evs, fmt.Sprintf("U %d %d %s %s %s none", u.id, req, hx(name), hx(icon), optsTok))
+			for _, o := range lv {
+				o.want++
+			}
+			if !settle("a set-client-user-info") {
+				return
+			}
+		default:
+			if len(lv) < 3 {
+				continue
+			}
+			// the client goes away: the connection handler's deferred Disconnect must tell everybody else
+			u.wc.Conn.EOF()
+			if _, done := u.wc.WaitDone(longWait); !done {
+				c.Violation("disconnect-not-performed", "the connection handler did not return after the client closed the connection")
+				return
+			}
+			u.live = false
+			evs = append(evs, fmt.Sprintf("D %d", u.id))
+			for _, o := range live() {
+				o.want++
+			}
+			if !settle("a disconnect") {
+				return
+			}
+		}
+	}
+	// complete half-way logins, then every roster must have converged
+	for _, h := range live() {
+		if !h.agreed && !c.failed {
+			req++
+			h.wc.Conn.Feed(encTran(mkTran(hotline.TranAgreed, req, fld(hotline.FieldUserName, []byte("late")), fld(hotline.FieldUserIconID, be16(9)), fld(hotline.FieldOptions, be16(0)))))
+			h.wc.ReplyTo(req, longWait)
+			h.agreed = true
+			evs = append(evs, fmt.Sprintf("A %d %d %s %s 0 none", h.id, req, hx([]byte("late")), hx(be16(9))))
+			for _, o := range live() {
+				if o != h {
+					o.want++
+				}
+			}
+			if !settle("the last Agreed") {
+				return
+			}
+		}
+	}
+	time.Sleep(10 * time.Millisecond)
+	var es []string
+	for _, cc := range ts.Srv.ClientMgr.List() {
+		es = append(es, rEntry{id: int(binary.BigEndian.Uint16(cc.ID[:])), name: string(cc.UserName), icon: string(normIcon(cc.Icon)), flags: int(binary.BigEndian.Uint16(cc.Flags[:]))}.String())
+	}
+	list := "."
+	if len(es) > 0 {
+		list = strings.Join(es, ",")
+	}
+	lv := live()
+	sort.Slice(lv, func(i, j int) bool { return lv[i].id < lv[j].id })
+	var vs []string
+	checks := 0
+	for _, u := range lv {
+		inbox, n, err := u.presenceInbox()
+		if err != nil {
+			c.Violation("interleaved-transactions", "the stream written to a client is not a sequence of whole transactions")
+			return
+		}
+		if n != u.want {
+			c.Note("history", clip(strings.Join(evs, " ")))
+			c.Violation("notification-count", fmt.Sprintf("user %d received %d presence notifications over its connection, exactly %d are due", u.id, n, u.want))
+			return
+		}
+		m, ok := foldRoster(inbox)
+		if !ok {
+			vs = append(vs, fmt.Sprintf("%d>none", u.id))
+			continue
+		}
+		vs = append(vs, fmt.Sprintf("%d>%s", u.id, rosterStr(m)))
+		checks++
+		if rosterStr(m) != list {
+			c.Note("history", clip(strings.Join(evs, " ")))
+			c.Note("folded_roster", clip(rosterStr(m)))
+			c.Note("server_list", clip(list))
+			c.Violation("roster-diverges", fmt.Sprintf("user %d (real connection): folding the notifications it received onto the list it fetched does not give the server's current user list", u.id))
+			return
+		}
+	}
+	ctr := ts.Srv.ClientMgr.(*hotline.MemClientMgr).VerifNextClientID()
+	implState := fmt.Sprintf("ctr=%d list=%s views=%s", ctr, list, strings.Join(vs, ";"))
+	ans := c.O.Ask("c13run " + strings.Join(evs, " "))
+	model := ans
+	if i := strings.Index(ans, " || "); i >= 0 {
+		model = ans[i+4:]
+	}
+	c.Note("history", clip(strings.Join(evs, " ")))
+	c.Corr("presence-wire-state", implState, model, false)
+	for _, u := range live() {
+		u.wc.Conn.EOF()
+	}
+	for _, u := range users {
+		u.wc.WaitDone(longWait)
+	}
+	if checks > 0 {
+		c.Nontrivial("wire " + strings.Join(evs, " "))
+	}
+	c.Dist("presence-wire/run")
+}
+
 func init() {
 	props["C13"] = func(x *Ctx) {
-		x.rule = "histories of connect (1.5+ login, name still empty) / agreed (name, 2- or 4-byte icon, options 0..7, automatic response) / set-client-user-info (with and without options) / set-user (privilege change by users with and without modify-user; toggles the admin flag) / disconnect / instant message (refuse flag, automatic reply, quote, ids nobody holds) / fetch by 2-8 clients over 6 accounts; per-connection inboxes are built by routing every transaction through the real client table; after events (25%) and at the end, when no login is half-way, every client's folded roster must equal a fresh user-list reply. id-wrap: users alive at ids 1,2,3,7,100,65533..65535 while the counter crosses 65 535 / 2^32 with adds and deletes; long-wrap: one 2·10^5-step add/delete history (<= 40 alive) crossing 65 535 three times; targeted: message / invitation / info / disconnect addressed to an id after the wrap. non-trivial = history with >= 2 completed logins, a later change or departure and >= 1 roster comparison (presence); every wrap / targeted case; distinct = distinct event lists / parameters"
+		x.rule = "histories of connect (1.5+ login, name still empty) / agreed (name, 2- or 4-byte icon, options 0..7, automatic response) / set-client-user-info (with and without options) / set-user (privilege change by users with and without modify-user; toggles the admin flag) / disconnect / instant message (refuse flag, automatic reply, quote, ids nobody holds) / fetch by 2-8 clients over 6 accounts; per-connection inboxes are built by routing every transaction through the real client table; after events (25%) and at the end, when no login is half-way, every client's folded roster must equal a fresh user-list reply. id-wrap: users alive at ids 1,2,3,7,100,65533..65535 while the counter crosses 65 535 / 2^32 with adds and deletes; long-wrap: one 2·10^5-step add/delete history (<= 40 alive) crossing 65 535 three times; targeted: message / invitation / info / disconnect addressed to an id after the wrap; presence-wire: both login flows, Agreed, set-client-user-info, fetch and client-side close over real connections (handleNewConnection + processOutbox), rosters folded from the bytes each connection received. non-trivial = history with >= 2 completed logins, a later change or departure and >= 1 roster comparison (presence); every wrap / targeted case; distinct = distinct event lists / parameters"
 		x.assume = []string{
 			"a client fetches its user list after its own login completed and sends Agreed once (the server does not echo a user's own Agreed back to it)",
 			"roster comparison only when nothing is in flight and no login is half-way (DESIGN §7 C13 Reading); histories are sequential",
 			"icon ids are 2-byte values, or 4-byte integers whose value fits 16 bits (a listed record has room for 2 bytes)",
 			"fewer than 65 535 users connected at once (the allocator loop needs a free id)",
 		}
-		x.Add(&Family{Name: "presence-history", Quick: 1500, Thor: 120000, Run: runPresenceHistory})
-		x.Add(&Family{Name: "id-wrap", Quick: 400, Thor: 30000, Run: runIDWrap})
-		x.Add(&Family{Name: "long-wrap", Quick: 1, Thor: 16, Run: runLongWrap})
-		x.Add(&Family{Name: "targeted", Quick: 48, Thor: 1600, Run: runTargeted})
+		x.Add(&Family{Name: "presence-history", Quick: 1500, Thor: 50000, Run: runPresenceHistory})
+		x.Add(&Family{Name: "id-wrap", Quick: 400, Thor: 20000, Run: runIDWrap})
+		x.Add(&Family{Name: "long-wrap", Quick: 1, Thor: 8, Run: runLongWrap})
+		x.Add(&Family{Name: "targeted", Quick: 48, Thor: 800, Run: runTargeted})
+		x.Add(&Family{Name: "presence-wire", Quick: 16, Thor: 400, Run: runPresenceWire})
 	}
 }
